@@ -17,14 +17,29 @@ from olvc.sym import Opaque, Seg, tagstr
 from spec import target_lang as TL
 
 
+class _Timed(list):
+    """list whose entries remember the logical time at which they were appended"""
+
+    def __init__(self, owner):
+        super().__init__()
+        self.owner = owner
+        self.times = []
+
+    def append(self, x):
+        self.owner.clock += 1
+        self.times.append(self.owner.clock)
+        super().append(x)
+
+
 class Sem(TL.Eval):
     def __init__(self, flags=None, outcomes=None):
         super().__init__()
         self.cond = z3.BoolVal(True)
         self.state = dict(flags or {})     # flag key -> z3 Bool
         self.outcomes = outcomes or {}     # child tag -> {flag key: z3 Bool}
-        self.execs = []                    # (kind, tag, cond)
-        self.writes = []                   # (flag key, value, cond)
+        self.execs = _Timed(self)          # (kind, tag, cond)
+        self.writes = _Timed(self)         # (flag key, value, cond)
+        self.clock = 0
 
     # -- flags ------------------------------------------------------------------------
     def flag_key(self, e):
